@@ -215,7 +215,8 @@ def cut(k: int) -> bool:
                 from vpkg.harness.flow import StallSource
                 inp = StallSource(data, k, P["len"] + 1)
             elif P.get("source") == "chunked":
-                inp = ChunkedSource(data[:k], [1, 1, 1])   # non-seekable, first reads one byte each, then plain EOF at the cut
+                # non-seekable raw source: first reads one byte each, every later read at most 7 bytes, plain EOF at the cut
+                inp = ChunkedSource(data[:k], [1, 1, 1] + [7] * (len(data) + 8))
             else:
                 inp = io.BytesIO(data[:k])
             if P["integ"] == "generic":
